@@ -963,6 +963,21 @@ pub fn c20_texts(big: bool) -> Vec<String> {
     for s in ["g(\\,)", "[a, \\,]", "g(\\|)", "g(a, \\,, b)", "[\\,, a]", "name(\"John Smith\")", "[\"John Smith\", b]", "f(\"a, b\", c)", "[f(\"x y\")]", "g([\"p, q\"], z)", "f(g(h(a), b))", "f(g(h(a), b), c)", "[[a, [b]], c]", "f([g(a), b], [c])", "Ωmega", "f(Ω)", "f(Ω, x)", "g(x, Ωmega)", "[été, b]", "inf", "NaN", "2E3"] {
         v.push(s.to_string());
     }
+    // scale: the same term at nesting depth / item count / token length n, in every context
+    for n in [4usize, 5, 8, 9, 16, 17, 32, 33, 40, 41, 64, 65] {
+        let items = |f: &dyn Fn(usize) -> String| (1..=n).map(f).collect::<Vec<_>>().join(", ");
+        v.push(format!("{}a{}", "f(".repeat(n), ")".repeat(n)));
+        v.push(format!("{}a{}", "[".repeat(n), "]".repeat(n)));
+        v.push(format!("k({})", items(&|i| i.to_string())));
+        v.push(format!("[{}]", items(&|i| format!("a{}", i))));
+        v.push(format!("[{} | $T]", items(&|i| format!("$V{}", i))));
+        v.push("ab".repeat(n));
+        v.push(format!("${}", "X".repeat(n)));
+        v.push("7".repeat(n.min(18)));
+        v.push(format!("1.{}", "5".repeat(n.min(15))));
+        v.push(format!("\"{}\"", "a b ".repeat(n).trim()));
+        v.push(format!("add({})", items(&|i| i.to_string())));
+    }
     v.dedup();
     v
 }
